@@ -2,12 +2,14 @@ pub mod c02;
 pub mod c03;
 pub mod c04;
 pub mod c05;
+pub mod c06;
 pub mod c07;
 pub mod c09;
 pub mod c10;
 pub mod c11;
 pub mod c12;
 pub mod c13;
+pub mod c15;
 pub mod c17;
 pub mod c18;
 pub mod c19;
@@ -21,12 +23,14 @@ pub fn by_id(id: &str) -> Option<Box<dyn Property>> {
         "C03" => Some(Box::new(c03::C03)),
         "C04" => Some(Box::new(c04::C04)),
         "C05" => Some(Box::new(c05::C05)),
+        "C06" => Some(Box::new(c06::C06)),
         "C07" => Some(Box::new(c07::C07)),
         "C09" => Some(Box::new(c09::C09)),
         "C10" => Some(Box::new(c10::C10)),
         "C11" => Some(Box::new(c11::C11)),
         "C12" => Some(Box::new(c12::C12)),
         "C13" => Some(Box::new(c13::C13)),
+        "C15" => Some(Box::new(c15::C15)),
         "C17" => Some(Box::new(c17::C17)),
         "C18" => Some(Box::new(c18::C18)),
         "C19" => Some(Box::new(c19::C19)),
@@ -34,4 +38,4 @@ pub fn by_id(id: &str) -> Option<Box<dyn Property>> {
         _ => None,
     }
 }
-pub const ALL: &[&str] = &["C02", "C03", "C04", "C05", "C07", "C09", "C10", "C11", "C12", "C13", "C17", "C18", "C19", "C20"];
+pub const ALL: &[&str] = &["C02", "C03", "C04", "C05", "C06", "C07", "C09", "C10", "C11", "C12", "C13", "C15", "C17", "C18", "C19", "C20"];
